@@ -14,6 +14,15 @@ the model's verdict per path (must stay / must go / no position), the sentinel d
 and the listing of the scratch directory are compared with their state before, and the
 versioned content as the tree reports it must be unchanged.
 
+In a quarter of the bzr runs the first deleting call is raced: actor `cleaner` runs
+clean_tree WITH its confirmation prompt on a tree opened through the storage seam (the
+simulated user thinks for some virtual time, then answers yes) while actor `adder` (its own
+WorkingTree object) versions 1-2 paths that the call is about to delete (add / smart_add,
+seeded start delays: before the enumeration, during the prompt, after the deletion), under
+the seeded scheduler.  A path whose add was acknowledged must survive the call.
+
+Nested git trees are also created as checkouts linked by a `.git` FILE (gitdir: relative
+path to a git directory moved next to the tree; that directory counts as 'outside').
 Nested branches are placed everywhere, including the three layouts in which clean_tree
 used to destroy them (below an unversioned non-branch directory of a bzr tree; a bzr
 branch inside a git tree; a git repository rooted at a versioned directory of a bzr tree;
@@ -33,8 +42,9 @@ LEVEL = "exploration"
 RULE = (
     "one case = one seeded run: tree flavour (bzr dirstate | git index), a treesim history of 3-10 operations, 3-10 litter items "
     "(unknown / ignored / detritus-named files and directories, ignore file, nested branches, symlinks leaving the tree) and 1-3 "
-    "clean_tree calls with seeded option subsets; a cross-check riding on states reached by simulated tree histories (no schedule, no "
-    "fault); non-trivial = at least one call deleted something while something unversioned (or a nested branch, or a symlink "
+    "clean_tree calls with seeded option subsets; in 25% of the bzr runs the first deleting call runs as an actor (with the confirmation "
+    "prompt) against a second actor that adds 1-2 of the paths about to be deleted, interleaved by the seeded scheduler; a cross-check "
+    "riding on states reached by simulated tree histories (no fault injection); non-trivial = at least one call deleted something while something unversioned (or a nested branch, or a symlink "
     "leaving the tree) had to stay; distinct = distinct event-log digests of such runs"
 )
 COMPONENTS = {
@@ -45,11 +55,17 @@ COMPONENTS = {
         "ControlDir.open probing of nested control directories (bzr and git probers)",
         "a real directory on /dev/shm with a sentinel directory next to the tree; real nested branches/trees created with create_standalone_workingtree",
     ],
-    "simulated": ["the user's history of tree operations (treesim op sequence) and the litter dropped into the tree (seeded)"],
-    "stub": ["UI (SilentUIFactory; no_prompt=True)", "user identity / BRZ_HOME (scratch)"],
+    "simulated": [
+        "the user's history of tree operations (treesim op sequence) and the litter dropped into the tree (seeded)",
+        "raced calls: two actors (clean-tree at its prompt, a concurrent add) under the seeded scheduler, virtual clock for the user's thinking time and LockDir waits; the tree's control files (checkout LockDir) on the sim+file:// seam",
+    ],
+    "stub": ["UI (SilentUIFactory; no_prompt=True; raced calls: a prompt that yields to the scheduler and answers yes)", "user identity / BRZ_HOME (scratch)"],
 }
 ASSUMPTIONS = [
-    "rider: this check has no schedule and no fault of its own; it is a cross-check over tree states reached by simulated treesim histories (the states the C09 model can reach with every treesim guard on), nothing more",
+    "rider: no fault injection; a cross-check over tree states reached by simulated treesim histories (the states the C09 model can reach with every treesim guard on); the only schedule of its own is the two-actor race of the first deleting call in 25% of the bzr runs",
+    "raced calls (bzr only; the git index has no read lock to speak of): the oracle is 'a path whose add RETURNED successfully must not be deleted by that call, whatever the interleaving'; a refused add (LockContention from the dirstate lock while clean-tree holds its read lock, NoSuchFile after the deletion, anything else) leaves the path unversioned and deletable; when clean_tree itself is refused the lock nothing is demanded of it; for the rest of an unversioned directory that got versioned meanwhile (smart_add of a file inside it, add of the directory) no position; the dirstate lock itself is an OS/Rust lock outside the seam, so switches happen at the seam operations around it (tree opening, checkout LockDir, the prompt) - the window 'during the prompt' is reached through seeded start delays in virtual time, not through pre-emption inside the lock call",
+    "two actors are two processes of the simulated world but one real process, and the dirstate fcntl lock does not exclude within a process in one direction (a read lock is granted while another tree object holds the write lock; measured: LockContention between two real processes); install_tree_lock_seam gives that case the two-process outcome (LockContention for the reader) and makes taking/releasing the tree lock a scheduling point; it is active only while several actors run",
+    "`.git`-file checkouts: the git directory is moved to <scratch>/gitdirs and referred to by a relative gitdir: path; it is part of the 'outside' state that must not change",
     "'detritus' is not defined by the property text; the model uses the definition of the command's help (conflict files *.THIS/*.BASE/*.OTHER, backups *~, selftest directories *.tmp) = clean_tree.is_detritus; *.orig / *.rej are generated too and are plain unknown files unless an ignore pattern matches them",
     "the model's ignore matcher covers a tiny grammar only: the default user ignore list (as suffix / prefix / exact-name rules: *~ *.a *.o *.so *.py[co] *.sw[nop] .#* [#]*# __pycache__ bzr-orphans) and tree patterns of the forms `name`, `*.ext`, `dir/name`; names are drawn from a fixed vocabulary for which these rules are exact; no `!` exceptions, no RE: patterns, no nested ignore files",
     "bzr: an unversioned directory is one unit, classified by its own name (extras() reports the directory, not its contents; documented) - its contents go or stay with it; git: every unversioned non-directory is classified on its own (a file is ignored when a tree pattern matches one of its path components or, for the user's default list, its basename); the model takes no position on directories of a git tree that hold no versioned file, and none on an unversioned symlink that resolves to a directory in a git tree (git extras() does not report those)",
@@ -417,8 +433,10 @@ def gen_litter(rng, lay, n):
                     continue
                 it = {"k": "nest", "p": rng.choice(cands), "fmt": "git", "at": 1, "n": fresh()}
             else:
-                par = pick_parent(prefer_unversioned=rng.random() < 0.3)
+                par = pick_parent(prefer_unversioned=rng.random() < 0.4)
                 it = {"k": "nest", "p": path_in(par, NEST_NAMES), "fmt": fmt, "commit": rng.random() < 0.3, "n": fresh()}
+                if fmt == "git" and rng.random() < 0.5:
+                    it["gitfile"] = 1
         if lay.classify(it)[0] != "ok":
             continue
         lay.apply(it)
@@ -470,7 +488,40 @@ def generate(rng, tier):
     litter = gen_litter(rng, lay, rng.randint(3, 10))
     cleans = [gen_opts(rng) for _ in range(rng.randint(1, 3))]
     plan = {"flavour": flavour, "names": names, "ops": ops, "litter": litter, "cleans": cleans}
+    if flavour == "bzr" and rng.random() < P_RACE:
+        race = gen_race(rng, lay, cleans)
+        if race:
+            plan["race"] = race
     return plan
+
+
+P_RACE = 0.25
+RACE_DELAYS = [0, 0, 0.005, 0.02, 0.05, 0.3, 1.0, 1.0, 1.5, 6.0]
+
+
+def gen_race(rng, lay, cleans):
+    """A second actor for the first clean call that deletes: 1-2 add / smart_add operations
+    on paths the model says that call deletes (the call is made a deleting one if needed)."""
+    opts = cleans[0]
+    opts["dry_run"] = False
+    if not (opts["unknown"] or opts["ignored"] or opts["detritus"]):
+        opts["unknown"] = True
+    pats = lay.patterns()
+    tops, inner = [], []
+    for q in sorted(lay.m.disk):
+        st, _cat = lay.status(q, lay.m.disk[q][0], opts, pats)
+        if st != DELETE:
+            continue
+        (tops if lay.top_candidate(q) == q else inner).append(q)
+    adds = []
+    for k in range(rng.randint(1, 2)):
+        if inner and rng.random() < 0.3:
+            adds.append({"o": "smart_add", "p": rng.choice(inner), "n": 2000 + k})
+        elif tops:
+            adds.append({"o": "add", "p": rng.choice(tops), "id": "race-%d" % k})
+    if not adds:
+        return None
+    return {"adds": adds, "delay": rng.choice(RACE_DELAYS), "think": rng.choice([0, 0.5, 2.0, 2.0]), "cdelay": rng.choice([0, 0, 0, 0.5])}
 
 
 def shrink_candidates(plan):
@@ -504,6 +555,27 @@ def shrink_candidates(plan):
         if it["k"] == "nest" and it.get("commit"):
             p = copy.deepcopy(plan)
             p["litter"][i]["commit"] = False
+            yield p
+        if it["k"] == "nest" and it.get("gitfile"):
+            p = copy.deepcopy(plan)
+            del p["litter"][i]["gitfile"]
+            yield p
+    race = plan.get("race")
+    if race:
+        p = copy.deepcopy(plan)
+        del p["race"]
+        p.pop("sched", None)
+        yield p
+        for i in range(len(race["adds"])):
+            if len(race["adds"]) > 1:
+                p = copy.deepcopy(plan)
+                p["race"]["adds"] = race["adds"][:i] + race["adds"][i + 1 :]
+                yield p
+    sched = plan.get("sched")
+    if isinstance(sched, list) and len(sched) > 1:
+        for cut in (len(sched) // 2, len(sched) * 3 // 4):
+            p = copy.deepcopy(plan)
+            p["sched"] = sched[:cut]
             yield p
     if "unguarded" in plan:  # key of replays recorded before the guards were removed: ignored
         p = copy.deepcopy(plan)
@@ -543,8 +615,12 @@ def safe_disk_snapshot(root, flavour=None):
 
 def outside_state(scratch):
     """What must not change outside the tree: the sentinel directory (kinds, contents) and
-    the names in the scratch directory."""
-    return (safe_disk_snapshot(os.path.join(scratch, "sentinel")), sorted(os.listdir(scratch)) if os.path.isdir(scratch) else ["<scratch directory is gone>"])
+    the git directories of `.git`-file checkouts (moved next to the tree), the names in the
+    scratch directory."""
+    return (
+        dict(safe_disk_snapshot(os.path.join(scratch, "sentinel")), **{"gitdirs/" + k: v for k, v in safe_disk_snapshot(os.path.join(scratch, "gitdirs")).items()}),
+        sorted(os.listdir(scratch)) if os.path.isdir(scratch) else ["<scratch directory is gone>"],
+    )
 
 
 def make_nested(root, item, outer_flavour):
@@ -564,6 +640,16 @@ def make_nested(root, item, outer_flavour):
         wt.smart_add([full])
         kw = {"rev_id": b"nested-%d" % item["n"]} if item["fmt"] == "bzr" else {}
         wt.commit(message="nested", timestamp=1700000000 + item["n"], timezone=0, committer="Sim User <sim@example.com>", reporter=T._quiet_reporter(), **kw)
+    if item.get("gitfile") and item["fmt"] == "git":
+        # a checkout linked to its repository by a `.git` FILE (linked worktree / submodule
+        # checkout): the git directory moves to <scratch>/gitdirs/g<n>, next to the tree,
+        # and is referred to by a RELATIVE path (nothing absolute in plan, content or log)
+        del wt
+        store = os.path.join(os.path.dirname(root), "gitdirs")
+        os.makedirs(store, exist_ok=True)
+        os.rename(os.path.join(full, ".git"), os.path.join(store, "g%d" % item["n"]))
+        with open(os.path.join(full, ".git"), "wb") as f:
+            f.write(("gitdir: %sgitdirs/g%d\n" % ("../" * (item["p"].count("/") + 2), item["n"])).encode())
 
 
 def apply_litter(tree, lay, item):
@@ -638,7 +724,7 @@ def check_call(sim, lay, tree, idx, opts, before, vbefore, obefore, after, vafte
         if st == KEEP and not same:
             if opts["dry_run"]:
                 tag = "dry_run"
-            elif cat == "versioned":
+            elif cat in ("versioned", "acknowledged-add"):
                 tag = "versioned_path"
             elif cat == "nested":
                 tag = "nested_branch"
@@ -652,6 +738,7 @@ def check_call(sim, lay, tree, idx, opts, before, vbefore, obefore, after, vafte
     for q in sorted(after):
         if q not in before:
             problems.append(("new_path", "new", q, "%r appeared" % q))
+    vafter = {p: v for p, v in vafter.items() if p in vbefore or p == ""}  # paths versioned by the racing actor: judged per path above
     if vafter != vbefore:
         diff = sorted(set(vbefore.items()) ^ set(vafter.items()), key=repr)[:4]
         problems.append(("versioned_path", "versioned", "", "the versioned content the tree reports changed: %r" % [(p, _short(v[:3])) for p, v in diff]))
@@ -697,6 +784,169 @@ def coverage_probes(sim, lay, before, statuses, pats):
         if q and lay.ignored(q, pats):
             sim.probe("versioned_path_matching_ignore_rule")
             break
+
+
+def install_tree_lock_seam():
+    """Two actors of one run are two PROCESSES of the simulated world, but one process of
+    the real one, and the dirstate file lock (fcntl, taken by the Rust DirState) does not
+    exclude within a process in one direction: a read lock is granted while another tree
+    object holds the write lock (measured: refused with LockContention between two real
+    processes, granted in-process, also with -Dstrict_locks).  This seam (installed once,
+    idempotent, active only while a Sim runs several actors) gives that case the outcome
+    the OS gives two processes, and makes taking / releasing the tree lock a scheduling
+    point."""
+    import breezy.bzr.workingtree_4 as w4
+    from breezy import errors
+
+    from simkit.sim import CTX
+
+    cls = w4.DirStateWorkingTree
+    if getattr(cls, "_verif_c46_lock_seam", False):
+        return
+    real_read, real_self_write, real_unlock = cls.lock_read, cls._lock_self_write, cls.unlock
+
+    def multi_sim():
+        s = getattr(CTX, "sim", None)
+        return s if s is not None and s.multi else None
+
+    def holders(s, tree):
+        reg = s.__dict__.setdefault("_c46_tree_locks", {})
+        return reg.setdefault(tree.basedir, {})
+
+    def acquired(s, tree, mode):
+        if s is not None and tree._control_files._lock_count == 1:
+            holders(s, tree)[id(tree)] = (s.current().name, mode)
+
+    def lock_read(self):
+        s = multi_sim()
+        if s is not None and not self._control_files._lock_count:
+            s.before_op("tree.lock_read", "t", False)
+            s.after_op("tree.lock_read", "t")
+            me = s.current().name
+            if any(name != me and mode == "w" for name, mode in holders(s, self).values()):
+                raise errors.LockContention("dirstate of %s (write-locked by another process)" % os.path.basename(self.basedir))
+        r = real_read(self)
+        acquired(s, self, "r")
+        return r
+
+    def _lock_self_write(self):
+        s = multi_sim()
+        if s is not None and not self._control_files._lock_count:
+            s.before_op("tree.lock_write", "t", False)
+            s.after_op("tree.lock_write", "t")
+        r = real_self_write(self)
+        acquired(s, self, "w")
+        return r
+
+    def unlock(self):
+        s = multi_sim()
+        last = self._control_files._lock_count == 1
+        try:
+            return real_unlock(self)
+        finally:
+            if s is not None and last:
+                holders(s, self).pop(id(self), None)
+                s.before_op("tree.unlock", "t", False)
+                s.after_op("tree.unlock", "t")
+
+    cls.lock_read = lock_read
+    cls._lock_self_write = _lock_self_write
+    cls.unlock = unlock
+    cls._verif_c46_lock_seam = True
+
+
+class PromptUI:
+    """The simulated user at clean-tree's confirmation prompt: thinks for a while (virtual
+    time; a scheduling point for the other actor), then says yes."""
+
+    def __init__(self, base, think):
+        self._base = base
+        self._think = think
+
+    def __getattr__(self, name):
+        return getattr(self._base, name)
+
+    def note(self, msg):
+        pass
+
+    def show_warning(self, msg):
+        pass
+
+    def get_boolean(self, prompt, **kwargs):
+        from simkit.sim import cur_sim
+
+        s = cur_sim()
+        s.before_op("ui.confirm", "", False)
+        s.after_op("ui.confirm", "")
+        if self._think:
+            s.sleep(self._think)
+        return True
+
+
+def run_race(sim, lay, root, idx, opts, race, statuses):
+    """The clean call as actor `cleaner` (its own tree object, opened through the storage
+    seam, with the confirmation prompt) against actor `adder` (its own tree object) that
+    versions paths the call is about to delete.  Returns (exception raised by clean_tree or
+    None, [(op, exception or None)]) or None when no add is applicable."""
+    from breezy import clean_tree, ui
+
+    from simkit.sim import SimCrash
+
+    m2 = lay.m.copy()
+    adds = []
+    for op in race.get("adds", []):
+        st = statuses.get(op.get("p"))
+        if op.get("o") not in ("add", "smart_add") or st is None or st[0] != DELETE or m2.classify(op) != "ok":
+            continue
+        m2.apply(op)
+        adds.append(op)
+    if not adds:
+        return None
+    box = {"raised": None}
+    results = []
+
+    def cleaner():
+        if race.get("cdelay"):
+            sim.sleep(race["cdelay"])  # the user starts clean-tree a little later
+        try:
+            clean_tree.clean_tree(T.tree_url(root, "bzr"), unknown=opts["unknown"], ignored=opts["ignored"], detritus=opts["detritus"], dry_run=False, no_prompt=False)
+        except (SimCrash, KeyboardInterrupt, SystemExit):
+            raise
+        except Exception as e:  # noqa: BLE001 - not judged
+            box["raised"] = e
+
+    def adder():
+        if race.get("delay"):
+            sim.sleep(race["delay"])
+        for op in adds:
+            t = T.open_tree(root, "bzr")  # every command is a process of its own
+            try:
+                T.apply_op(t, lay.m, op)
+                err = None
+            except (SimCrash, KeyboardInterrupt, SystemExit):
+                raise
+            except Exception as e:  # noqa: BLE001 - a refusal: the path stays unversioned
+                err = e
+            del t
+            results.append((op, err))
+            sim.event("adder", json.dumps(op, sort_keys=True), "acknowledged" if err is None else type(err).__name__)
+
+    install_tree_lock_seam()
+    names = ("cleaner@%d" % idx, "adder@%d" % idx)
+    old_ui = ui.ui_factory
+    ui.ui_factory = PromptUI(old_ui, race.get("think", 0))
+    try:
+        sim.spawn(names[0], cleaner)
+        sim.spawn(names[1], adder)
+        sim.sched_policy = "random"
+        sim.run_actors()
+    finally:
+        ui.ui_factory = old_ui
+    for nm in names:
+        ex = sim.actors[nm].exc
+        if ex is not None:
+            raise RuntimeError("actor %s died: %r" % (nm, ex)) from ex
+    return box["raised"], results
 
 
 def execute(sim, plan):
@@ -748,7 +998,7 @@ def execute(sim, plan):
         if special:
             sim.probe("layout_" + special)
         napplied += 1
-        sim.probe("litter_" + item["k"] + ("_" + item["to"] if item["k"] == "link" else "") + ("_" + item["fmt"] if item["k"] == "nest" else ""))
+        sim.probe("litter_" + item["k"] + ("_" + item["to"] if item["k"] == "link" else "") + ("_" + item["fmt"] + ("_gitfile" if item.get("gitfile") else "") if item["k"] == "nest" else ""))
         sim.event("litter", i, json.dumps(item, sort_keys=True))
     tree = T.reopen(tree)
     snap = T.disk_snapshot(root, fl)
@@ -756,6 +1006,9 @@ def execute(sim, plan):
         raise Diverged("after the litter phase the disk differs from the model: %r" % sorted(set(model_view(snap, lay).items()) ^ set(model.disk.items()), key=repr)[:6])
     # 3. the calls under test
     interesting = False
+    race_idx = None
+    if plan.get("race") and fl == "bzr":
+        race_idx = next((i for i, o in enumerate(plan["cleans"]) if not o["dry_run"] and (o["unknown"] or o["ignored"] or o["detritus"])), None)
     for idx, opts in enumerate(plan["cleans"]):
         before = T.disk_snapshot(root, fl)
         vbefore = versioned_view(tree, model)
@@ -765,11 +1018,44 @@ def execute(sim, plan):
         sim.state_seen(lay.abstract(opts, pats))
         coverage_probes(sim, lay, before, statuses, pats)
         raised = None
-        try:
-            clean_tree.clean_tree(root, unknown=opts["unknown"], ignored=opts["ignored"], detritus=opts["detritus"], dry_run=opts["dry_run"], no_prompt=True)
-        except Exception as e:  # noqa: BLE001 - not judged (see ASSUMPTIONS); the safety oracles still are
-            raised = e
-            sim.probe("raised_" + type(e).__name__)
+        raced = None
+        if idx == race_idx:
+            raced = run_race(sim, lay, root, idx, opts, plan["race"], statuses)
+        if raced is not None:
+            raised, results = raced
+            sim.probe("race_run")
+            if raised is not None:
+                sim.probe("race_cleaner_raised_" + type(raised).__name__)
+            tree = T.reopen(tree)
+            # an acknowledged add made its path versioned: from then on it must stay,
+            # whatever the interleaving.  A refused one leaves the path as it was.
+            touched = set()
+            for op, err in results:
+                if err is not None:
+                    sim.probe("race_add_refused_" + type(err).__name__)
+                    continue
+                sim.probe("race_add_acknowledged")
+                touched.add(lay.top_candidate(op["p"]))
+                if model.classify(op) != "ok":
+                    raise Diverged("acknowledged %s is not applicable to the model" % json.dumps(op))
+                model.apply(op)
+            if touched:
+                new = {}
+                for q, v in before.items():
+                    if q in model.inv and statuses[q][1] != "versioned":
+                        new[q] = (KEEP, "acknowledged-add")
+                    elif any(c is not None and T.inside(c, q) for c in touched):
+                        # the rest of an unversioned directory that got versioned meanwhile
+                        new[q] = (FREE, statuses[q][1]) if statuses[q][0] == DELETE else statuses[q]
+                    else:
+                        new[q] = statuses[q]
+                statuses = new
+        else:
+            try:
+                clean_tree.clean_tree(root, unknown=opts["unknown"], ignored=opts["ignored"], detritus=opts["detritus"], dry_run=opts["dry_run"], no_prompt=True)
+            except Exception as e:  # noqa: BLE001 - not judged (see ASSUMPTIONS); the safety oracles still are
+                raised = e
+                sim.probe("raised_" + type(e).__name__)
         after = safe_disk_snapshot(root, fl)
         try:
             vafter = versioned_view(tree, model)
@@ -822,7 +1108,7 @@ WARM_LITTER = [
     {"k": "link", "p": "d/ln2", "to": "in", "t": "d", "n": 1005},
     {"k": "nest", "p": "sub", "fmt": "bzr", "commit": True, "n": 1006},
     {"k": "nest", "p": "vendor", "fmt": "git", "commit": True, "n": 1007},
-    {"k": "nest", "p": "u/sub", "fmt": "git", "n": 1008},
+    {"k": "nest", "p": "u/sub", "fmt": "git", "gitfile": 1, "n": 1008},
     {"k": "nest", "p": "d", "fmt": "git", "at": 1, "n": 1009},
     {"k": "ignorefile", "patterns": ["*.log", "junk", "d/gen"], "add": True, "n": 1010},
 ]
@@ -853,6 +1139,7 @@ def warm():
     import breezy.transform  # noqa: F401
     from simkit.sim import Sim
 
+    install_tree_lock_seam()
     saved = {k: os.environ.get(k) for k in ("VERIF_SCRATCH", "BRZ_HOME", "HOME")}
     tmp = tempfile.mkdtemp(prefix="verif-warm-", dir="/dev/shm")
     try:
@@ -862,6 +1149,8 @@ def warm():
                 os.makedirs(os.path.join(sc, "home"))
                 os.environ.update(VERIF_SCRATCH=sc, BRZ_HOME=os.path.join(sc, "home"), HOME=os.path.join(sc, "home"))
                 plan = {"flavour": fl, "ops": _warm_ops(), "litter": WARM_LITTER, "cleans": WARM_CLEANS}
+                if fl == "bzr":
+                    plan["race"] = {"adds": [{"o": "add", "p": "junk", "id": "race-0"}, {"o": "smart_add", "p": "u/out.log", "n": 2001}], "delay": 0.05, "think": 0.5}
                 sim = Sim(1, plan, step_cap=10**6)
                 try:
                     execute(sim, plan)
